@@ -22,7 +22,7 @@ RULE = ('cases are 1-4 exchanges; each exchange encrypts one generated message (
         'faulted delivery reached a decrypt call; distinct = distinct (producer, recipient kinds, fault kind) sets among '
         'non-trivial runs')
 TIERS = {"quick": {"runs": 6000, "budget_s": 90}, "thorough": {"runs": 150000, "budget_s": 1500}}
-PROBES = ('wrong_credential_on_live_object', 'fault_raised', 'fault_same_plaintext', 'fault_not_encrypted_refusal', 'wrong_pass_raised', 'non_recipient_raised',
+PROBES = ('protected_recipient', 'wrong_credential_on_live_object', 'fault_raised', 'fault_same_plaintext', 'fault_not_encrypted_refusal', 'wrong_pass_raised', 'non_recipient_raised',
           'splice_two_messages', 'sweep_bits', 'producer_ref', 'producer_pgpy', 'multi_recipient')
 FAULTS = ('flip_esk', 'flip_esk', 'flip_version', 'flip_body', 'flip_body', 'flip_mdc', 'flip_header', 'flip_prefix_repeat', 'truncate_raw', 'truncate_reframed',
           'extend_inside', 'extend_after', 'swap_blocks', 'splice_container', 'splice_esk', 'mdc_swap', 'drop_esk', 'dup_esk',
@@ -51,7 +51,10 @@ def generate(rng, tier):
                       'faults': [{'kind': rng.choice(FAULTS), 'pos': rng.random(), 'bit': rng.randrange(8), 'alt': rng.randrange(1 << 16)}
                                  for _ in range(nf)],
                       'sweep': tier == 'thorough' and rng.random() < 0.04})
-    return {'config': {'recipients': rcfg, 's2k_count': rng.choice([0, 16, 16, 96]), 'start_us': 1_600_000_000_000_000}, 'steps': steps}
+    # some recipients keep their key passphrase-protected and decrypt inside (nested) unlock scopes
+    protected = [n for n in names if not rcfg[n].get('foreign') and rng.random() < 0.25]
+    return {'config': {'recipients': rcfg, 's2k_count': rng.choice([0, 16, 16, 96]), 'start_us': 1_600_000_000_000_000,
+                       'protected': protected}, 'steps': steps}
 
 
 def simplify(case):
@@ -209,6 +212,15 @@ def execute(case, ctx):
     import pgpy
     cfg = case['config']
     R = encworld.Recipients(cfg['recipients'])
+    R.protected = {}
+    for n in cfg.get('protected', []):
+        if n in R.keys:
+            try:
+                R.keys[n].protect('c04 recipient pw', pgpy.constants.SymmetricKeyAlgorithm.AES128, pgpy.constants.HashAlgorithm.SHA256)
+                R.protected[n] = 'c04 recipient pw'
+                ctx.probe('protected_recipient')
+            except Exception as e:
+                ctx.event('setup', 'protect-raised', type(e).__name__)
     seams.clock().set(cfg.get('start_us', 1_600_000_000_000_000))
     names = sorted(R.keys)
     shapes = set()
@@ -317,10 +329,23 @@ def _produce(pgpy, R, step, recips, ctx, tag):
     return bytes(out), orig_bytes, orig_shape
 
 
+SWALLOWED = object()
+
+
 def _decrypt(pgpy, R, wire, kind, who, intact=False):
     m = pgpy.PGPMessage.from_blob(wire)
     if kind == 'key':
-        dec = R.keys[who].decrypt(m)
+        pw = getattr(R, 'protected', {}).get(who)
+        if pw is not None:
+            # a helper that unlocks for itself, called by code that already holds the key unlocked
+            dec = SWALLOWED
+            with R.keys[who].unlock(pw):
+                with R.keys[who].unlock(pw):
+                    dec = R.keys[who].decrypt(m)
+            if dec is SWALLOWED:
+                return dec           # decrypt() neither returned nor did its exception reach the caller
+        else:
+            dec = R.keys[who].decrypt(m)
         if dec is m:
             # "This message is not encrypted": the input is handed back with a warning, which counts as a refusal - unless
             # the delivered octets still hold the untouched encrypted container next to injected packets (intact): a reader
@@ -339,6 +364,9 @@ def _deliver(pgpy, R, mut, recips, orig_shape, fkind, ctx, step):
         try:
             with watchdog(30):
                 dec = _decrypt(pgpy, R, mut, kind, who, intact=fkind in ('inject_plain', 'extend_after', 'second_container'))
+                if dec is SWALLOWED:
+                    ctx.viol('C04:failure-swallowed:%s' % fkind, 'after fault %s decrypt() inside nested unlock scopes neither returned a message nor raised: '
+                             'the failure never reached the caller' % fkind)
                 if dec is None:
                     ctx.probe('fault_not_encrypted_refusal')
                     continue
@@ -374,6 +402,8 @@ def _wrong_credential(pgpy, R, enc, cred, recips, ctx):
     except Exception:
         ctx.probe('wrong_pass_raised' if kind == 'pass' else 'non_recipient_raised')
         return
+    if dec is SWALLOWED:
+        ctx.viol('C04:failure-swallowed:non_recipient', 'a non-recipient key decrypting inside nested unlock scopes: the refusal never reached the caller')
     ctx.viol('C04:wrong-credential-accepted:%s' % kind,
              'decrypting with a %s that is not a recipient credential returned %s instead of raising'
              % ('passphrase' if kind == 'pass' else 'private key', 'the input' if dec is None else 'a message'))
